@@ -157,6 +157,7 @@ func ruleC10Panics(c *Ctx) {
 	}
 	// call sites of partial helpers (a caller that merely forwards its own parameter passes the obligation on to its callers)
 	seenReq := map[string]bool{}
+	nSites := map[int]int{}
 	for qi := 0; qi < len(reqs); qi++ {
 		r := reqs[qi]
 		idx := -1
@@ -168,9 +169,22 @@ func ruleC10Panics(c *Ctx) {
 		for _, fn := range c.P.Funcs {
 			core.EachInstr(fn, func(i ssa.Instruction) {
 				call, ok := i.(ssa.CallInstruction)
-				if !ok || call.Common().StaticCallee() != r.fn || idx >= len(call.Common().Args) {
+				if !ok || idx >= len(call.Common().Args) {
 					return
 				}
+				callee := call.Common().StaticCallee()
+				if callee == nil && !call.Common().IsInvoke() {
+					// a closure called through the variable that holds it (a recursive local function)
+					for _, src := range traceSources(call.Common().Value) {
+						if mc, ok := src.(*ssa.MakeClosure); ok && mc.Fn == ssa.Value(r.fn) {
+							callee = r.fn
+						}
+					}
+				}
+				if callee != r.fn {
+					return
+				}
+				nSites[qi]++
 				arg := call.Common().Args[idx]
 				ks, _ := c.kindsAt(fn, arg, i)
 				if fn.Parent() != nil {
@@ -196,6 +210,11 @@ func ruleC10Panics(c *Ctx) {
 				}
 				c.R.Check(ks&r.bad == 0, rule, construct, c.pos(i), fmt.Sprintf("called with kinds %s, for which the helper does not panic", ks), fmt.Sprintf("%s panics (at %s) for kinds %s and is called here with a value whose kind can be %s", core.FuncName(r.fn), r.pos, r.bad, ks&r.bad))
 			})
+		}
+	}
+	for qi, r := range reqs {
+		if nSites[qi] == 0 {
+			c.R.Unknown(rule, "helper-call:"+core.FuncName(r.fn)+":no-call-site", r.pos, fmt.Sprintf("%s panics for kinds %s and no call site of it could be found to check what it is called with", core.FuncName(r.fn), r.bad))
 		}
 	}
 	c.R.Floor(rule, "explicit panics", nPanic, 8)
